@@ -218,4 +218,140 @@ def printRawResponseType (schema : Schema) (parent : Str) (m : SelMap) : RawRes 
   | .panic s => .panic s
   | .outOfFuel => .outOfFuel
 
+/-! ### what the type says, and what the operation needs it to say (C27) -/
+
+/-- nullable / list structure of a type -/
+inductive TyShape where
+  | leaf
+  | nullable (inner : TyShape)
+  | list (inner : TyShape)
+deriving Repr, Inhabited, BEq, DecidableEq
+
+mutual
+/-- nullable / list structure of a schema type (first variant of a union) -/
+def TypeAnn.shape : TypeAnn → TyShape
+  | .scalar _ => .leaf
+  | .plural t => .list t.shape
+  | .union nullable variants =>
+    if nullable then .nullable (TypeAnn.firstShape variants) else TypeAnn.firstShape variants
+def TypeAnn.firstShape : List TypeAnn → TyShape
+  | [] => .leaf
+  | t :: _ => t.shape
+end
+
+/-- the TypeScript text of a shape around an inner text: `(… | null)` / `ReadonlyArray<…>` -/
+def wrapShape (innerText : Str) : TyShape → Str
+  | .leaf => innerText
+  | .nullable s => [40] ++ wrapShape innerText s ++ cs!" | null" ++ [41]
+  | .list s => cs!"ReadonlyArray<" ++ wrapShape innerText s ++ [62]
+
+mutual
+/-- types as the schema produces them: every union has exactly one variant -/
+def TypeAnn.singleVariant : TypeAnn → Bool
+  | .scalar _ => true
+  | .plural t => t.singleVariant
+  | .union _ [.scalar _] => true
+  | .union _ [.plural t] => t.singleVariant
+  | .union _ _ => false
+end
+
+/-- response keys, nullable/list structure and nesting of an object type (one list of
+properties per alternative) -/
+inductive Shape where
+  | prop (key : Str) (ty : TyShape) (kids : Option (List (List Shape)))
+deriving Repr, Inhabited
+
+mutual
+def RTree.shape : RTree → Shape
+  | .scalar key ty _ => .prop key ty.shape none
+  | .object key ty alts => .prop key ty.shape (some (RTree.shapeAlts alts))
+def RTree.shapeProps : List RTree → List Shape
+  | [] => []
+  | p :: rest => p.shape :: RTree.shapeProps rest
+def RTree.shapeAlts : List (List RTree) → List (List Shape)
+  | [] => []
+  | a :: rest => RTree.shapeProps a :: RTree.shapeAlts rest
+end
+
+def Tree.isFrag : Tree → Bool
+  | .frag .. => true
+  | _ => false
+
+def Tree.key : Tree → Str
+  | .field name args _ => responseKeyT name args
+  | .frag ty _ => ty
+
+/-- GraphQL field merging of two selection lists: selections with one response key are one
+field whose sub-selections are merged -/
+def mergeTrees : Nat → List Tree → List Tree → List Tree
+  | 0, a, b => a ++ b
+  | _, a, [] => a
+  | fuel + 1, a, b :: bs =>
+    match b with
+    | .field name args kids =>
+      let key := responseKeyT name args
+      if a.any (fun x => !x.isFrag && x.key == key) then
+        mergeTrees fuel (a.map fun x =>
+          match x with
+          | .field n ar ks =>
+            if responseKeyT n ar == key then
+              .field n ar (match ks, kids with
+                | some k1, some k2 => some (mergeTrees fuel k1 k2)
+                | some k1, none => some k1
+                | none, k2 => k2)
+            else x
+          | other => other) bs
+      else mergeTrees fuel (a ++ [.field name args kids]) bs
+    | .frag ty ks =>
+      if a.any (fun x => x.isFrag && x.key == ty) then
+        mergeTrees fuel (a.map fun x =>
+          match x with
+          | .frag t k1 => if t == ty then .frag t (mergeTrees fuel k1 ks) else x
+          | other => other) bs
+      else mergeTrees fuel (a ++ [.frag ty ks]) bs
+
+/-- The alternatives the response object of a selection set can take, from the operation's
+selection tree and the schema: without inline fragments one alternative with one property per
+field; with inline fragments one alternative per fragment, holding the fields outside the
+fragments merged with the fragment's fields.  `none` for a field the schema table does not know. -/
+def expectedAlts (schema : Schema) : Nat → Str → List Tree → Option (List (List Shape))
+  | 0, _, _ => none
+  | fuel + 1, parent, sels =>
+    let frags := sels.filter Tree.isFrag
+    let rest := sels.filter (fun t => !t.isFrag)
+    let rec props (parent : Str) : List Tree → Option (List Shape)
+      | [] => some []
+      | .field name args kids :: more =>
+        match schema.lookup parent name, props parent more with
+        | some e, some ps =>
+          match kids with
+          | none => some (.prop (responseKeyT name args) e.ty.shape none :: ps)
+          | some ks =>
+            match e.ty.inner with
+            | none => none
+            | some target =>
+              (expectedAlts schema fuel target ks).map fun alts =>
+                .prop (responseKeyT name args) e.ty.shape (some alts) :: ps
+        | _, _ => none
+      | .frag .. :: more => props parent more
+    let rec fragAlts : List Tree → Option (List (List Shape))
+      | [] => some []
+      | .frag ty ks :: more =>
+        match expectedAlts schema fuel ty (mergeTrees 1000 rest ks), fragAlts more with
+        | some a, some b => some (a ++ b)
+        | _, _ => none
+      | _ :: more => fragAlts more
+    if frags.isEmpty then (props parent rest).map fun ps => [ps]
+    else fragAlts frags
+
+mutual
+def Tree.depth : Tree → Nat
+  | .field _ _ none => 1
+  | .field _ _ (some kids) => 1 + Tree.depthList kids
+  | .frag _ kids => 1 + Tree.depthList kids
+def Tree.depthList : List Tree → Nat
+  | [] => 0
+  | t :: rest => Nat.max t.depth (Tree.depthList rest)
+end
+
 end IsoVerif.Core
